@@ -268,6 +268,8 @@ def judge(rep, wl, script, lines, ff):
                 probs.append(Problem("range", k, "%s of %d bytes returned %d" % (t[0], req, ret)))
             bw = getattr(rep, "bpf", 0) or getattr(rep, "blockwidth", 0)
             same_view = ff is None or lines[ops.index(next(o for o in ops if o.startswith("open ")))].strip() == ff.get("open", "").strip()
+            if t[0] == "rraw":
+                reads.append((pos["r"], ret, d.get("data", "")[:2 * max(ret, 0)], k))      # judged by the `data` clause like the typed reads
             if bw > 0 and ret >= 0 and ret % bw == 0 and same_view:     # (a fault inside the open may leave the library with another frame width)
                 pending = ("r" if t[0] == "rraw" else "w", ret // bw, True, dict(pos), k, None)
             else:
